@@ -23,6 +23,84 @@ def maint (w : World) (m : Nat) : Maint := (w.maints.getD m default).m
 def startOrders (w : World) (m : Nat) (st : List Order) : World :=
   st.foldl (fun w o => w.schedLib w.now (w.maints.getD m default).aid (.startWork m o.seq) pStartWork) w
 
+/-! ### action scheduler (used by initialisation) -/
+
+/-- `_update_state(advance)`. -/
+def schedUpdate (w : World) (s : Nat) (advance : Bool) : World :=
+  let sw := w.scheds.getD s default
+  let (s', r) := sw.s.update advance
+  let w := { w with scheds := w.scheds.set s { sw with s := s' } }
+  match r with
+  | none => w
+  | some (st, objs, dur) =>
+    let w := w.addRec (.schedUpdate s w.now st)
+    let w := objs.foldl (fun w (o, ovr) => w.addRes (.act s o w.now st ovr)) w
+    w.schedLib (w.now + dur) sw.aid (.schedUpdate s) pOtherHigh
+
+/-- `initialize` of a registered asset. -/
+def initAsset (w : World) : AssetRef → World
+  | .dev d => w.initDev d
+  | .maint m =>
+    let mw := w.maints.getD m default
+    { w with maints := w.maints.set m { mw with inited := true, m := { mw.m with val := mw.m.val.reset } } }
+  | .sched s => w.schedUpdate s false
+  | .sensor s =>
+    let sw := w.sensors.getD s default
+    let firstTime := !sw.registered
+    let w := { w with sensors := w.sensors.set s { sw with s := sw.s.reset, registered := true } }
+    match sw.s.kind with
+    | .periodic => w.schedLib (w.now + sw.s.interval) sw.aid (.periodicSense s) pSensor
+    | .output =>
+      if firstTime then w.modDev sw.proc (fun d => { d with finSensors := d.finSensors ++ [s] }) else w
+  | .cms _ => w
+
+/-- A constructor call: register the new asset (asset id = registration index + 1), wire it up,
+and — if the system has already started simulating — initialise it at once (`System.add_asset`;
+registration happens after the constructors have finished: fix of finding F5). -/
+def addDev (w : World) (d : Dev) : World :=
+  let i := w.devs.length
+  let d := { d with aid := w.assets.length + 1 }
+  let ups := d.up
+  let w := { w with devs := w.devs ++ [{ d with up := [] }], assets := w.assets ++ [AssetRef.dev i] }
+  -- constructor: set_upstream(upstream)
+  let w := w.rewire i ups
+  -- a group path registers with its group
+  let w := if d.kind == .gpath then
+      let gr := w.groups.getD d.group default
+      { w with groups := w.groups.set d.group { gr with paths := gr.paths ++ [i] } }
+    else w
+  if w.started then w.initAsset (.dev i) else w
+
+def addAsset (w : World) : AssetSpec → World
+  | .dev d => w.addDev d
+  | .group gid devs ins outs =>
+    let ins := if ins.isEmpty then devs.take 1 else ins
+    let outs := if outs.isEmpty then devs.getLast?.toList else outs
+    let gi := w.devs.length
+    let groups := if w.groups.length ≤ gid then w.groups ++ List.replicate (gid + 1 - w.groups.length) {} else w.groups
+    let w := { w with groups := groups.set gid { paths := [], input := gi, output := gi + 1 } }
+    let w := w.addDev { kind := .ginput, group := gid }
+    let w := ins.foldl (fun w d => w.rewire d [gi]) w
+    let w := w.addDev { kind := .goutput, group := gid }
+    w.rewire (gi + 1) outs
+  | .maint cap v =>
+    let m := w.maints.length
+    let w := { w with maints := w.maints ++ [({ m := { cap := cap, val := { init := v, value := v } }, aid := w.assets.length + 1 } : MaintW)],
+                      assets := w.assets ++ [AssetRef.maint m] }
+    if w.started then w.initAsset (.maint m) else w
+  | .sched tt cyc =>
+    let i := w.scheds.length
+    let w := { w with scheds := w.scheds ++ [({ s := { tt := tt, cyc := cyc }, aid := w.assets.length + 1 } : SchedW)],
+                      assets := w.assets ++ [AssetRef.sched i] }
+    if w.started then w.initAsset (.sched i) else w
+  | .sensor sw =>
+    let i := w.sensors.length
+    let w := { w with sensors := w.sensors ++ [{ sw with aid := w.assets.length + 1 }],
+                      assets := w.assets ++ [AssetRef.sensor i] }
+    if w.started then w.initAsset (.sensor i) else w
+  | .cms =>
+    { w with assets := w.assets ++ [AssetRef.cms w.cmsSensors.length], cmsSensors := w.cmsSensors ++ [[]] }
+
 /-! ### scripted operations -/
 
 def getVar (w : World) (h : Nat) : Option Nat := (w.vars.getD h none)
@@ -106,6 +184,7 @@ def applyOp (w : World) : Op → World × Res
       let sw := w.sensors.getD s default
       ({ w with cmsSensors := cs.set c (l ++ [s]),
                 sensors := w.sensors.set s { sw with s := sw.s.addCb (1000 + c) } }, .ok)
+  | .create spec => (w.addAsset spec, .ok)
 
 def applyOps (w : World) (ops : List Op) : World :=
   ops.foldl (fun w op => let (w', r) := w.applyOp op; w'.addRes r) w
@@ -172,19 +251,7 @@ def finishWork (w : World) (m seq : Nat) : World :=
     let w := w.modMaint m (fun _ => m')
     w.startOrders m st
 
-/-! ### action scheduler and sensors -/
-
-/-- `_update_state(advance)`. -/
-def schedUpdate (w : World) (s : Nat) (advance : Bool) : World :=
-  let sw := w.scheds.getD s default
-  let (s', r) := sw.s.update advance
-  let w := { w with scheds := w.scheds.set s { sw with s := s' } }
-  match r with
-  | none => w
-  | some (st, objs, dur) =>
-    let w := w.addRec (.schedUpdate s w.now st)
-    let w := objs.foldl (fun w (o, ovr) => w.addRes (.act s o w.now st ovr)) w
-    w.schedLib (w.now + dur) sw.aid (.schedUpdate s) pOtherHigh
+/-! ### sensors -/
 
 /-- `PeriodicSensor._periodic_sense()`. -/
 def periodicSense (w : World) (s : Nat) : World :=
@@ -220,23 +287,6 @@ def step (w : World) : Option (Event × World) :=
   | some (e, env') =>
     let w1 := { w with env := env' }
     some (e, if e.live then w1.exec (Action.ofNat e.act) else w1)
-
-/-- `initialize` of a registered asset. -/
-def initAsset (w : World) : AssetRef → World
-  | .dev d => w.initDev d
-  | .maint m =>
-    let mw := w.maints.getD m default
-    { w with maints := w.maints.set m { mw with inited := true, m := { mw.m with val := mw.m.val.reset } } }
-  | .sched s => w.schedUpdate s false
-  | .sensor s =>
-    let sw := w.sensors.getD s default
-    let firstTime := !sw.registered
-    let w := { w with sensors := w.sensors.set s { sw with s := sw.s.reset, registered := true } }
-    match sw.s.kind with
-    | .periodic => w.schedLib (w.now + sw.s.interval) sw.aid (.periodicSense s) pSensor
-    | .output =>
-      if firstTime then w.modDev sw.proc (fun d => { d with finSensors := d.finSensors ++ [s] }) else w
-  | .cms _ => w
 
 /-- First part of `System.simulate`: initialise the resource manager and the assets (once). -/
 def simulateInit (w : World) : World :=
